@@ -15,17 +15,24 @@ from the LogSock record (the model says which calls it makes; the records must c
 Spec on impl (C): CV.Conn.obsFail (ConnSpec.lean: per-socket automaton, reads = chunks recv
 delivered, tables hold only connected sockets, closed sockets were disconnected) is evaluated by the
 Lean driver on the implementation's own observations; plus the end-to-end comparison with what
-the peer really sent (here, plain bytes comparison).
+the peer really sent (here, plain bytes comparison); plus the unread-input clause: immediately before
+every round the harness asks the kernel (FIONREAD, independent of the server's own calls) how many
+bytes are queued on each server-side socket; a round in which the server closes such a socket on its
+own initiative (no `close`/injected hang-up for it earlier, no fatal `send` in that round) without
+calling `recv()` at all, or with fewer bytes received than were queued, has lost input that the
+kernel had delivered: `read-loss(no-recv-before-close,round)` / `read-loss(unread-left-at-close,round)`.
 Clients: a real `TCPClient` against a plain listening socket; `connected`/`disconnected` events per
 op vs. CV.Conn.Client, and CV.Conn.Client.alternates on the implementation's events.
 """
 import errno
+import fcntl
 import os
 import select
 import shutil
 import socket
 import struct
 import tempfile
+import termios
 import time
 
 from framework import Infra, ddmin, hx
@@ -207,6 +214,18 @@ class Rig:
             a = b
         return a[0]
 
+    def pending(self):
+        """bytes the kernel holds for the server on every open pool socket (FIONREAD; the server's own
+        recv() record is not consulted)"""
+        res = {}
+        for o, s in self.socks.items():
+            if s.fileno() >= 0:
+                try:
+                    res[o] = struct.unpack('i', fcntl.ioctl(s.fileno(), termios.FIONREAD, b'\0\0\0\0'))[0]
+                except OSError:
+                    pass
+        return res
+
     def wait_visible(self, fd, mask=select.POLLIN | select.POLLHUP | select.POLLERR, timeout=300):
         pp = select.poll()
         pp.register(fd, mask)
@@ -269,8 +288,10 @@ def execute(ops, kind, family):
     rig = Rig(kind, family)
     groups = []
     stats = {'late_write': 0, 'late_close': 0, 'exc': [], 'partial': 0, 'accepts': 0, 'gone': 0, 'disc': 0,
-             'reads': 0, 'e2e': [], 'reuse': 0, 'eof': set(), 'unknown_ev': 0}
+             'reads': 0, 'e2e': [], 'reuse': 0, 'eof': set(), 'unknown_ev': 0, 'unread_hangup': [],
+             'unread_close_judged': 0}
     disconnected = set()
+    asked = set()        # sockets the server side was told to close / that got an injected hang-up
     errlog = []
 
     def finish(lines_for):
@@ -312,13 +333,43 @@ def execute(ops, kind, family):
                     'tab': tab if last else None}
             specline = 'spec ' + ' '.join(impl['sys'] + impl['ev'] + ([tab] if last else []))
             groups.append((lines, impl, specline.rstrip()))
+        return main
 
+    def unread_clause(ready, pend, main):
+        """input the kernel held for the server before the round vs. what the server did in the round"""
+        flags = {}
+        for t in ready.split():
+            f, v = t.split(':')
+            if v != 'x':
+                flags[int(f)] = int(v)
+        for o, n in sorted(pend.items()):
+            if n <= 0:
+                continue
+            fl = flags.get(rig.fnos[o], 0)
+            if fl & 12:
+                stats['unread_hangup'].append('in' + ('+hup' if fl & 4 else '') + ('+err' if fl & 8 else '')
+                                              + ('+out' if rig.socks[o] in wr_before else ''))
+            if not any(e[0] == 'X' and e[1] == o for e in main):
+                continue
+            if o in asked or any(e[0] == 'S' and e[1] == o and e[3] == 'fatal' for e in main):
+                continue     # the server's own decision / the connection died under a send: nothing promised
+            stats['unread_close_judged'] += 1
+            got = [e for e in main if e[0] == 'R' and e[1] == o]
+            nread = sum(len(e[2]) // 2 for e in got if e[2] not in ('eof', 'again', 'err'))
+            if not got:
+                stats['e2e'].append((o, 'read-loss(no-recv-before-close,round)', 0, n))
+            elif nread < n:
+                stats['e2e'].append((o, 'read-loss(unread-left-at-close,round)', nread, n))
+
+    wr_before = ()
     try:
         for idx, op in enumerate(ops):
             name = op[0]
             try:
                 if name == 'poll':
                     ready = rig.probe()
+                    pend = rig.pending()
+                    wr_before = [x for x in rig.p._write if isinstance(x, socket.socket)]
                     rig.p._generate_events(GE())
                     settle(rig.m)
 
@@ -326,7 +377,7 @@ def execute(ops, kind, family):
                         rs = [f'r:{e[1]}:{e[2]}' for e in main if e[0] == 'R']
                         ss = [f's:{e[1]}:{e[3]}' for e in main if e[0] == 'S']
                         return [f"po {ready} | {' '.join(rs)} | {' '.join(ss)}"]
-                    finish(lines_for)
+                    unread_clause(ready, pend, finish(lines_for))
                     continue
                 i = op[1]
                 if name == 'conn':
@@ -372,7 +423,10 @@ def execute(ops, kind, family):
                         except OSError:
                             pass
                     s = rig.socks.get(i)
-                    if s is not None and s.fileno() >= 0 and name != 'drain':
+                    if s is not None and s.fileno() >= 0 and name in ('shut', 'pclose', 'rst'):
+                        # POLLIN may be up already (unread input): wait for the hang-up condition itself
+                        rig.wait_visible(s.fileno(), select.POLLRDHUP)
+                    elif s is not None and s.fileno() >= 0 and name != 'drain':
                         rig.wait_visible(s.fileno())
                     continue
                 if name in ('write', 'close', 'hup'):
@@ -381,6 +435,7 @@ def execute(ops, kind, family):
                         continue
                     if name == 'hup':
                         # what Poll/EPoll fire for HUP/ERR without pending input
+                        asked.add(i)
                         rig.m.fire(_disconnect(s), 'server')
                         line = f'hu {i}'
                     elif name == 'write':
@@ -391,6 +446,7 @@ def execute(ops, kind, family):
                     else:
                         if i in disconnected:
                             stats['late_close'] += 1
+                        asked.add(i)
                         rig.m.fire(close(s), 'server')
                         line = f'cl {i}'
                     settle(rig.m)
@@ -499,7 +555,7 @@ def problems_of(groups, st, fails):
         res.append(signature_of(c, CAUSE.get(line.split()[0], '?'), late))
     if st['exc']:
         res.append('loop-raised(end)')
-    res += [f'{k}(end)' for _o, k, _a, _b in st['e2e']]
+    res += [k if k.endswith(')') else f'{k}(end)' for _o, k, _a, _b in st['e2e']]
     if st['unknown_ev']:
         res.append('event-for-unknown-socket(end)')
     return res
@@ -553,6 +609,11 @@ def evaluate(ctx, cases, do_shrink=True):
             fresh = sig not in {v['signature'] for v in ctx.violations}
             ops = shrink(ctx, c, sig) if do_shrink and fresh else c['ops']
             detail = f": {st['exc'][0][1]}" if sig.startswith('loop-raised') else ''
+            for o, k, a, b in st['e2e']:
+                if k == sig and sig.startswith('read-loss('):
+                    detail = (f": the kernel held {b} unread byte(s) for socket {o} before the round; the server closed the "
+                              f"socket in that round having received {a} of them through recv()")
+                    break
             ctx.violate({'ops': ops, 'kind': c['kind'], 'family': c['family']}, sig,
                         f"{c['kind']}/{c['family']}: {sig} on the implementation's own observations{detail}")
         for op in c['ops']:
@@ -566,6 +627,9 @@ def evaluate(ctx, cases, do_shrink=True):
         ctx.count('dead_on_accept', 'yes' if st['gone'] else 'no')
         ctx.count('fd_reuse', 'yes' if st['reuse'] else 'no')
         ctx.count('clean_eof', 'yes' if st['eof'] else 'no')
+        for k in st['unread_hangup']:
+            ctx.count('rounds_with_unread_input_at_hangup', f"{c['kind']}/{c['family']}:{k}")
+        ctx.count('unread_input_close_judged', 'yes' if st['unread_close_judged'] else 'no')
         for _l, impl, _s in groups:
             for t in impl['ev']:
                 ctx.count('events', t[0])
@@ -608,6 +672,9 @@ def gen_history(rng):
             i = rng.choice(opened)
             if name == 'send':
                 ops.append(['send', i, rng.choice([1, 2, 3, 17, 100, 300, 4096, 5000])])
+                if rng.random() < 0.25:
+                    # the peer goes away before the server gets to poll: input and hang-up arrive together
+                    ops.append([rng.choice(['rst', 'rst', 'pclose', 'shut']), i])
             elif name == 'write':
                 ops.append(['write', i, rng.choice([0, 1, 5, 64, 1000, 70000 if big else 200, 300000 if big else 33])])
             else:
@@ -654,6 +721,30 @@ DIRECTED = [
     [['conn', 1]] + P() + [['write', 1, 0]] + P() + [['send', 1, 7], ['close', 1]] + P(2),
     [['conn', 1]] + P() + [['send', 1, 5000]] + P() + [['shut', 1]] + P(3),
 ]
+
+
+def abort_histories():
+    """peer sends k bytes and goes away (reset / close / half close) with NO round in between, so that the
+    next round finds unread input and the hang-up together; alone, after traffic that was polled, after two
+    sends, with a server-side write queued or stalled, followed by late server-side events, and with several
+    connections at once"""
+    res = []
+    for k in (1, 300, 5000):
+        for ab in ('rst', 'pclose', 'shut'):
+            burst = [['send', 1, k], [ab, 1]]
+            res.append([['conn', 1]] + P() + burst + P(4))
+            res.append([['conn', 1]] + P() + [['send', 1, 300]] + P() + [['write', 1, 5]] + P() + burst + P(4))
+            res.append([['conn', 1]] + P() + [['send', 1, 300]] + burst + P(4) + [['write', 1, 4], ['close', 1]] + P())
+            # a server-side write is queued but not yet attempted / stalled behind a peer that does not read
+            res.append([['conn', 1]] + P() + [['write', 1, 10]] + burst + P(4))
+            res.append([['conn', 1]] + P() + [['write', 1, 400000]] + P(2) + burst + P(4))
+        # several connections, each going away in its own way in the same round; one stays and goes on talking
+        res.append([['conn', 1], ['conn', 2], ['conn', 3], ['conn', 4]] + P(4)
+                   + [['send', 1, k], ['send', 2, k], ['send', 3, k], ['send', 4, 7], ['rst', 1], ['pclose', 2], ['shut', 3]]
+                   + P(4) + [['send', 4, 5]] + P() + [['write', 4, 3]] + P() + [['pclose', 4]] + P(2))
+        res.append([['conn', 1], ['conn', 2], ['conn', 3]] + P(3) + [['write', 2, 10], ['write', 3, 400000]] + P()
+                   + [['send', 3, k], ['rst', 3], ['send', 1, k], ['send', 2, k], ['rst', 2], ['rst', 1]] + P(5))
+    return res
 
 
 def small_scope(maxlen):
@@ -910,6 +1001,10 @@ def make_cases(ctx):
         for k in KINDS:
             cases.append({'ops': [list(o) for o in d], 'kind': k, 'family': 'tcp'})
         cases.append({'ops': [list(o) for o in d], 'kind': rng.choice(KINDS), 'family': 'unix'})
+    for d in abort_histories():
+        for k in KINDS:
+            cases.append({'ops': [list(o) for o in d], 'kind': k, 'family': 'tcp'})
+            cases.append({'ops': [list(o) for o in d], 'kind': k, 'family': 'unix'})
     thorough = ctx.tier == 'thorough' and not ctx.searching
     for ops in small_scope(3 if thorough else 2):
         for k in (KINDS if thorough else [rng.choice(KINDS)]):
@@ -927,7 +1022,10 @@ def run(ctx):
     ctx.rule = ('each case = one history of peer actions (connect, send, shutdown, close, reset, drain), server-side '
                 'write/close events and injected poller hang-ups applied to a real TCP/UNIX server under one of Select/Poll/EPoll and to the Lean model; '
                 'directed histories (late write/close, reset before accept, half close, close while writing to a stalled peer, '
-                'fatal send with pending close, many connections with fd reuse) x 3 pollers + every op sequence of length <= 2 '
+                'fatal send with pending close, many connections with fd reuse) x 3 pollers + abort histories (peer sends '
+                '1/300/5000 bytes and resets / closes / half-closes with no round in between; alone, after polled traffic, '
+                'with a server-side write queued or stalled, several connections in one round) x 3 pollers x tcp/unix '
+                '+ every op sequence of length <= 2 '
                 '(quick) / 3 (thorough) over one connection + random histories (1-5 connections, 20-60 actions) x 3 pollers; '
                 'client cases: a real TCPClient against a plain listener; non-trivial = at least one connection accepted and '
                 'disconnected; distinct = distinct (history, poller, family)')
